@@ -78,6 +78,7 @@ def structured_profiles(rng):
     out.append([{"uuid": b, "chars": []}, {"uuid": u16(0x1801), "chars": []}, {"uuid": b, "chars": []}, {"uuid": b, "chars": []}])
     out.append([{"uuid": u16(0x1800 + i), "chars": [ch(a, 3)] * 2} for i in range(8)])
     out.append([{"uuid": u16(0x1800), "chars": [ch(a, 0, props=0x10), ch(a, 1, props=0x20), ch(b, 0, props=0x30)]}])
+    out.append([{"uuid": u16(0x1800), "chars": [ch(a, 0, props=0x8A), ch(b, 2, props=0x80), ch(a, 1, props=0xFF)]}])   # bit 7 without 0x2900
     return out
 
 
@@ -86,11 +87,29 @@ def gen_cases(ctx):
     for p in structured_profiles(rng):
         for mtu in ([23, 30, 64, 517] if ctx.thorough else [23, rng.choice([24, 30, 64, 517])]):
             cases.append({"profile": p, "mtu": mtu, "tag": "structured"})
+    # two devices discovered one after the other in one process: same service range and
+    # characteristic handle, another position of the next characteristic
+    a16 = u16(0x2A00)
+    def chd(n):
+        return {"uuid": a16, "props": 0x0A, "value": "41", "descs": [{"kind": "generic", "uuid": u16(0x2904), "value": "01"} for _ in range(n)]}
+    pa = [{"uuid": u16(0x1800), "chars": [chd(2), chd(0)]}]      # char@2 descs 4,5 ; char@6
+    pb = [{"uuid": u16(0x1800), "chars": [chd(1), chd(1)]}]      # char@2 desc 4 ; char@5 desc 7
+    pc = [{"uuid": u16(0x1800), "chars": [chd(0), chd(2)]}]      # char@2 ; char@4 descs 6,7
+    for before, p in [([pa], pb), ([pb], pa), ([pa, pb], pc), ([pc], pb)]:
+        cases.append({"profile": p, "before": before, "mtu": 23, "tag": "after-another-device"})
     n = 700 if ctx.thorough else 80
     for i in range(n):
         small = i % 4 == 0
         p = gen_profile(rng, nsvc=rng.randrange(1, 4) if small else None, maxchr=4 if small else 8)
-        cases.append({"profile": p, "mtu": mtu_choice(rng), "tag": "random"})
+        c = {"profile": p, "mtu": mtu_choice(rng), "tag": "random"}
+        if i % 5 == 1:
+            # a same-shaped device with other descriptor counts was discovered before
+            q = json.loads(json.dumps(p))
+            for sv in q:
+                for ch in sv["chars"]:
+                    ch["descs"] = [d for d in ch["descs"] if d["kind"] == "generic"][:rng.randrange(0, 4)]
+            c["before"] = [q]
+        cases.append(c)
     if ctx.thorough:
         # every MTU 23..517 at least once on a mixed profile
         p = gen_profile(rng, nsvc=4, maxchr=6, p128=0.5)
